@@ -182,7 +182,7 @@ def record(r, tier, big=False, trap=0.001, small=False):
     f.append(str(nrefs))
     for _ in range(nrefs):
         rng_ = r.choice(["", "(bases 1 to %d)" % n, "(sites)", "(bases 1 to %d; 3 to 4)" % n])
-        f.append(rng_)
+        f += [rng_, nats(breaks(r, rng_, 16))]
         for kw, mx in (("AUTHORS", 30), ("TITLE", 30), ("JOURNAL", 20), ("PUBMED", 1), ("REMARK", 15)):
             t = "" if r.random() < 0.3 else text(r, r.randint(1, mx), trap)
             f += [t, nats(breaks(r, t, 12))]
